@@ -9,14 +9,15 @@ EXTENDS DirContract, Integers, TLC
 CONSTANTS Names,       \* universe of file names
           MaxWrites,   \* number of Write calls in a behaviour
           MaxCrashes,
+          MaxFaults,   \* how often the removal of the previous version may fail (environment fault; 0 in the property's own space)
           StaleFix     \* TRUE: model of the repaired code (a stale <target>.new is removed before linking)
 
 VARIABLES sets,        \* sets[w]: file set of Write w (chosen at the start)
           dirs,        \* version directories: w |-> set of names written so far
           target, new, \* the two symlinks: 0 = absent, else the version they point to
-          pc, w, todo, prev, crashes,
+          pc, w, todo, prev, crashes, faults,
           c
-vars == <<sets, dirs, target, new, pc, w, todo, prev, crashes, c>>
+vars == <<sets, dirs, target, new, pc, w, todo, prev, crashes, faults, c>>
 
 RECURSIVE Feed(_, _)
 Feed(cc, evs) == IF evs = <<>> THEN cc ELSE Feed(CNext(cc, Head(evs)), Tail(evs))
@@ -27,50 +28,57 @@ Obs(d, t) == [ev |-> "obs", present |-> t # 0, dangling |-> t # 0 /\ t \notin DO
 
 Init == /\ sets \in [1..MaxWrites -> SUBSET Names]
         /\ dirs = << >> /\ target = 0 /\ new = 0
-        /\ pc = "idle" /\ w = 0 /\ todo = {} /\ prev = 0 /\ crashes = 0
+        /\ pc = "idle" /\ w = 0 /\ todo = {} /\ prev = 0 /\ crashes = 0 /\ faults = 0
         /\ c = CReset
 
 Begin == /\ pc = "idle" /\ w < MaxWrites
          /\ w' = w + 1 /\ pc' = "mkbase" /\ todo' = sets[w + 1]
          /\ c' = Feed(c, <<[ev |-> "begin", w |-> w + 1, files |-> SetToSeq(sets[w + 1])]>>)
-         /\ UNCHANGED <<sets, dirs, target, new, prev, crashes>>
+         /\ UNCHANGED <<sets, dirs, target, new, prev, crashes, faults>>
 
 Step(nextpc, d2, t2, n2) ==
   /\ dirs' = d2 /\ target' = t2 /\ new' = n2 /\ pc' = nextpc
   /\ c' = Feed(c, <<Obs(d2, t2)>>)
 
-MkBase == pc = "mkbase" /\ Step("mknew", dirs, target, new) /\ UNCHANGED <<sets, w, todo, prev, crashes>>      \* dir.go:52
-MkNew  == pc = "mknew" /\ Step("files", (w :> {}) @@ dirs, target, new) /\ UNCHANGED <<sets, w, todo, prev, crashes>>   \* dir.go:56
+MkBase == pc = "mkbase" /\ Step("mknew", dirs, target, new) /\ UNCHANGED <<sets, w, todo, prev, crashes, faults>>      \* dir.go:52
+MkNew  == pc = "mknew" /\ Step("files", (w :> {}) @@ dirs, target, new) /\ UNCHANGED <<sets, w, todo, prev, crashes, faults>>   \* dir.go:56
 WriteFile ==                                                                                      \* dir.go:60-66 (map order: any)
   /\ pc = "files" /\ todo # {}
   /\ \E f \in todo : /\ todo' = todo \ {f}
                      /\ Step("files", [dirs EXCEPT ![w] = @ \cup {f}], target, new)
-  /\ UNCHANGED <<sets, w, prev, crashes>>
+  /\ UNCHANGED <<sets, w, prev, crashes, faults>>
 Symlink ==                                                                                        \* dir.go:68
   /\ pc = "files" /\ todo = {}
   /\ IF new # 0 /\ ~StaleFix
        THEN /\ pc' = "idle" /\ c' = Feed(c, <<[ev |-> "ret", w |-> w, err |-> TRUE, versions |-> Cardinality(DOMAIN dirs)]>>)
             /\ UNCHANGED <<dirs, target, new>>
        ELSE Step("rename", dirs, target, w)
-  /\ UNCHANGED <<sets, w, todo, prev, crashes>>
-Rename == pc = "rename" /\ Step("removeprev", dirs, new, 0) /\ UNCHANGED <<sets, w, todo, prev, crashes>>        \* dir.go:74
+  /\ UNCHANGED <<sets, w, todo, prev, crashes, faults>>
+Rename == pc = "rename" /\ Step("removeprev", dirs, new, 0) /\ UNCHANGED <<sets, w, todo, prev, crashes, faults>>        \* dir.go:74
 RemovePrev ==                                                                                     \* dir.go:80-84
   /\ pc = "removeprev"
   /\ Step("ret", IF prev # 0 THEN [x \in (DOMAIN dirs) \ {prev} |-> dirs[x]] ELSE dirs, target, new)
   /\ prev' = w
-  /\ UNCHANGED <<sets, w, todo, crashes>>
+  /\ UNCHANGED <<sets, w, todo, crashes, faults>>
+\* dir.go:92-96 with the environment refusing the removal: Write returns the error AFTER the rename - the target already shows
+\* the new set, the previous version stays on disk, d.prev is not advanced
+RemovePrevFail ==
+  /\ pc = "removeprev" /\ prev # 0 /\ faults < MaxFaults
+  /\ faults' = faults + 1 /\ pc' = "idle"
+  /\ c' = Feed(c, <<[ev |-> "fault"], Obs(dirs, target), [ev |-> "ret", w |-> w, err |-> TRUE, versions |-> Cardinality(DOMAIN dirs)]>>)
+  /\ UNCHANGED <<sets, dirs, target, new, w, todo, prev, crashes>>
 Ret == /\ pc = "ret" /\ pc' = "idle"
        /\ c' = Feed(c, <<[ev |-> "ret", w |-> w, err |-> FALSE, versions |-> Cardinality(DOMAIN dirs)]>>)
-       /\ UNCHANGED <<sets, dirs, target, new, w, todo, prev, crashes>>
+       /\ UNCHANGED <<sets, dirs, target, new, w, todo, prev, crashes, faults>>
 
 \* the process can also die after the last filesystem step, before Write returns (pc = "ret"): nothing differs on disk, but
 \* the in-memory `prev` is lost like after any other crash
 Crash == /\ pc # "idle" /\ crashes < MaxCrashes
          /\ pc' = "idle" /\ prev' = 0 /\ crashes' = crashes + 1 /\ todo' = {}
          /\ c' = Feed(c, <<[ev |-> "crash"]>>)
-         /\ UNCHANGED <<sets, dirs, target, new, w>>
+         /\ UNCHANGED <<sets, dirs, target, new, w, faults>>
 
-Next == Begin \/ MkBase \/ MkNew \/ WriteFile \/ Symlink \/ Rename \/ RemovePrev \/ Ret \/ Crash
+Next == Begin \/ MkBase \/ MkNew \/ WriteFile \/ Symlink \/ Rename \/ RemovePrev \/ RemovePrevFail \/ Ret \/ Crash
 Spec == Init /\ [][Next]_vars /\ WF_vars(Begin \/ MkBase \/ MkNew \/ WriteFile \/ Symlink \/ Rename \/ RemovePrev \/ Ret)
 
 NotBad == ~IsBad(c)
